@@ -225,7 +225,7 @@ def run(ctx):
                   rule="oracle: deterministic set (%d: crafted inputs, every corpus file under 2 mode sets, every token-boundary prefix of %d small "
                        "corpus files, and the 'one more than the grammar allows' family: ~190 bounded repetitions of the grammar x 0..5 repetitions x "
                        "expression / file / function-body / command-argument / class-file / ParseExprEx contexts, every keyword in 10 statement-start "
-                       "forms x 5 contexts, balanced / unbalanced / mismatched brackets of each kind at depth 1..4) + %d seeded cases (token-level mutation of corpus files, byte mutation, splice, token soup, random bytes) over "
+                       "forms x 5 contexts, balanced / unbalanced / mismatched brackets of each kind at depth 1..4, and every string of length <= 5 over {$ { } a backslash} as interpreted and raw string literal in expr / file mode) + %d seeded cases (token-level mutation of corpus files, byte mutation, splice, token soup, random bytes) over "
                        "ParseFile / ParseEntry(9 file-name kinds) / ParseExprFrom / ParseExprEx and random subsets of all mode flags (Trace on a few small "
                        "inputs); seeded inputs are rewritten out of a dimension only while its deterministic witness still fails in this run "
                        "(`go (`/`defer (`: %s; lambda block `=> {`: %s; %d inputs rewritten); sortedness is judged on every entry point including ParseExprEx; non-trivial = distinct (source, entry) with >= 8 bytes or >= 1 error" %
